@@ -105,6 +105,28 @@ def load_known():
     return known, fixed
 
 
+def evaluate(prop, tier, rules, config, repo=None):
+    """Run rules on one configuration of the given repository tree; return (ctx, prog)."""
+    prog = load_program(config, repo)
+    cx = Ctx(prop, prog, tier)
+    per_rule = []
+    for rid, fn, descr in rules:
+        cx.cur_rule = rid
+        n0 = len(cx.obligations)
+        try:
+            fn(cx)
+        except AnchorError as e:
+            cx.check("ANCHOR", False, None, "anchor missing (fail closed): %s" % e, how="anchor")
+        except Exception as e:  # a crash of a rule must not pass silently
+            tb = traceback.format_exc()
+            cx.check("UNDECIDED", False, None, "rule crashed (fail closed): %r" % (e,), how="error", detail=tb[-1500:])
+        if len(cx.obligations) == n0:
+            cx.check("VACUOUS", False, None, "rule produced no obligation (vacuous pass refused)", how="count")
+        per_rule.append({"rule": rid, "description": descr, "obligations": len(cx.obligations) - n0})
+    cx.per_rule = per_rule
+    return cx, prog
+
+
 def run_property(prop, tier, rules, configs, level_text, assumptions, seed=0):
     """Run all rules of a property on all configurations; print verdict lines; write evidence and
     reports; return exit code."""
@@ -120,27 +142,14 @@ def run_property(prop, tier, rules, configs, level_text, assumptions, seed=0):
     rules_run = []
     for config in configs:
         try:
-            prog = load_program(config)
+            cx, prog = evaluate(prop, tier, rules, config)
         except InfraError as e:
             print("INFRA-ERROR property=%s config=%s: %s" % (prop, config, e))
             return 2
         extract_s += getattr(prog, "extract_s", 0.0)
         bodies_n[config] = len(prog.bodies)
-        cx = Ctx(prop, prog, tier)
-        for rid, fn, descr in rules:
-            cx.cur_rule = rid
-            n0 = len(cx.obligations)
-            try:
-                fn(cx)
-            except AnchorError as e:
-                cx.check("ANCHOR", False, None, "anchor missing (fail closed): %s" % e, how="anchor")
-            except Exception as e:  # a crash of a rule must not pass silently
-                tb = traceback.format_exc()
-                cx.check("UNDECIDED", False, None, "rule crashed (fail closed): %r" % (e,), how="error", detail=tb[-1500:])
-            if len(cx.obligations) == n0:
-                cx.check("VACUOUS", False, None, "rule produced no obligation (vacuous pass refused)", how="count")
-            if config == configs[0]:
-                rules_run.append({"rule": rid, "description": descr, "obligations": len(cx.obligations) - n0})
+        if config == configs[0]:
+            rules_run = cx.per_rule
         all_obs.extend(cx.obligations)
         functions |= cx.functions
         notes.extend(cx.notes)
